@@ -29,7 +29,7 @@ ASSUMPTIONS = [
 ]
 
 ALPHA = ["R", "E", "Q", "O", "T", "N", "G", "B"]
-IDS = [{"s": "abc"}, {"s": "7"}, None]
+IDS = [{"s": "abc"}, {"s": "7"}, None, {"s": ""}, {"i": 0}]
 
 
 def expected_params(case, w):
@@ -64,7 +64,8 @@ class Histories(Suite):
             out += list(G.exhaustive(ALPHA, 4, [1024], IDS))
             n = 300000 if budget == "thorough" else 60000
         rng = ctx.sub_rng("c01", budget)
-        alpha = ALPHA + ["Rj", "Ed", "F", "Oe"]
+        alpha = ALPHA + ["Rj", "R0", "R0", "Ed", "F", "Oe"]
+        out += list(G.exhaustive(["R0", "N", "Q"], 2, [1024], IDS))
         for _ in range(n):
             out.append(G.seeded(rng, alpha, cancel_p=0.08))
         ctx.exhaustive_parts.append("histories: every word over the 8-symbol alphabet up to the stated length x 8 time patterns")
@@ -108,7 +109,7 @@ class Histories(Suite):
             if len(reqs) != 1 or not o["writes"] or o["writes"][0] is not reqs[0]:
                 return ("request-count", f"{len(reqs)} requests written (first write: {o['writes'][:1]})", {"requests": 1})
             w = reqs[0]
-            if case.get("id") is not None and w["id"] != H._idval(case["id"], {}):
+            if case.get("id") is not None and H._idval(case["id"], {}) and w["id"] != H._idval(case["id"], {}):
                 return ("request-id", f"request written with id {w['id']!r}", {"id": case["id"]})
             if w.get("method") != case["method"] or w.get("jsonrpc") != "2.0" or not expected_params(case, w):
                 return ("request-content", f"request written as {w}", {"method": case["method"], "params": case.get("params")})
